@@ -10,9 +10,17 @@ REFERENCED  = every harness/c*.cpp is compiled to an object (g++ -O0, unsanitize
               defines of its compile probes) and `nm` lists the symbols the object refers to (U: library function called
               from code the harness odr-uses) or defines (W/T/t/V/u: inline / template code g++ emitted because the harness
               odr-uses it, directly or through other header code; at -O0 g++ emits every odr-used inline function).
+              A strong definition (T: a NON-inline function defined in a header, emitted for the mere #include) counts only
+              when a relocation of the object names it (readelf -r); such definitions are also reported in a NOTE, because a
+              program with two TUs including that header does not link.
 MATCHING    = non-template functions by mangled name (constructor variants C1/C2 unified); function templates and members
               of class templates by demangled qualified name with the template argument lists stripped + number of
-              parameters + const qualifier.
+              parameters + const qualifier; overloads this key cannot separate are separated by coarse parameter kinds
+              (size_t / double / pointer / other, reference or not) when a symbol identifies one of them, else lumped (-v lists them).
+IMPRECISION = virtual functions called through a base reference leave no symbol reference (flagged {virtual}; `~name in cNN`
+              says which harness TEXT mentions the name); virtual members of an instantiated class template are emitted with
+              its vtable, called or not; "referenced" includes code reached only through other header code the harness uses;
+              functions called only from library .cpp code are NOT referenced (the harness object has no symbol for them).
 uncovered   = public - referenced by any harness; tools/props/c10_api_accounted.py explains categories of them; what is
               neither covered nor accounted is printed under UNACCOUNTED.
 
@@ -21,7 +29,7 @@ harness bytes), so a second call is instant.
 
     AITB_REPO=/var/tmp/rp/c10 AITB_CACHE=/var/tmp/aitb-cache python3 tools/api_coverage.py [-v] [--covered] [--json]
 """
-import fnmatch, glob, importlib, json, os, re, subprocess, sys, time
+import fnmatch, glob, importlib, json, os, re, subprocess, sys, threading, time
 from concurrent.futures import ThreadPoolExecutor
 
 sys.path.insert(0, os.path.dirname(os.path.abspath(__file__)))
@@ -29,8 +37,8 @@ import common as C
 
 sys.setrecursionlimit(20000)
 
-VERSION = 'apicov-4'
-SYMS_VERSION = 'apicov-3'      # harness object symbols: independent of the declaration walker's version
+VERSION = 'apicov-7'
+SYMS_VERSION = 'apicov-4'      # harness object symbols: independent of the declaration walker's version
 WORK = os.path.join(C.CACHE, 'apicov')
 INC = os.path.join(C.REPO, 'include')
 SKIP_NS = {'Impl', 'detail', 'Detail', 'Verif'}
@@ -59,8 +67,23 @@ def strip_targs(s):
     return ''.join(out)
 
 
+_PRIM = {'unsignedlong': 'ul', 'size_t': 'ul', 'std::size_t': 'ul', 'unsignedint': 'u', 'unsigned': 'u', 'double': 'd', 'bool': 'b', 'int': 'i', 'long': 'l',
+         'float': 'f', 'char': 'c'}
+
+
+def type_cat(t):
+    """coarse parameter category shared by clang's type spelling and the demangler's: primitive kind / pointer / other, + reference"""
+    t = re.sub(r'\b(const|volatile)\b', '', t).strip()
+    ref = ''
+    while t.endswith('&'):
+        ref = '&'; t = t[:-1].strip()
+    if t.endswith('*'):
+        return 'ptr' + ref
+    return _PRIM.get(t.replace(' ', ''), 'X') + ref
+
+
 def _params(node):
-    ps = []
+    ps, cats = [], []
     pack = False
     for ch in node.get('inner', []) or []:
         if ch.get('kind') == 'ParmVarDecl':
@@ -68,15 +91,53 @@ def _params(node):
             if ch.get('isParameterPack') or t.endswith('...'):
                 pack = True
             ps.append(t)
+            cats.append(type_cat(ch.get('type', {}).get('desugaredQualType') or t))
     if node.get('variadic'):
         pack = True
-    return ps, pack
+    return ps, pack, cats
+
+
+def _unwrap(e):
+    while isinstance(e, dict) and e.get('kind') in ('ImplicitCastExpr', 'ParenExpr', 'ExprWithCleanups', 'MaterializeTemporaryExpr', 'CXXBindTemporaryExpr',
+                                                     'CXXConstructExpr', 'CXXFunctionalCastExpr', 'CXXStaticCastExpr') and len(e.get('inner', []) or []) == 1:
+        e = e['inner'][0]
+    return e
+
+
+def _is_member_of_this(e):
+    e = _unwrap(e)
+    if not isinstance(e, dict) or e.get('kind') != 'MemberExpr':
+        return False
+    b = _unwrap((e.get('inner') or [{}])[0])
+    return b.get('kind') == 'CXXThisExpr'
+
+
+def body_kind(node):
+    """'getter' for `{ return member_; }`, 'setter' for `{ member_ = parameter; }`, else ''"""
+    body = [ch for ch in node.get('inner', []) or [] if ch.get('kind') == 'CompoundStmt']
+    if not body:
+        return ''
+    st = body[0].get('inner', []) or []
+    if len(st) != 1:
+        return ''
+    st = st[0]
+    if st.get('kind') == 'ReturnStmt' and len(st.get('inner', []) or []) == 1 and _is_member_of_this(st['inner'][0]):
+        return 'getter'
+    st = _unwrap(st)
+    if st.get('kind') == 'BinaryOperator' and st.get('opcode') == '=' and len(st.get('inner', [])) == 2:
+        l, r = st['inner']
+        r = _unwrap(r)
+        if _is_member_of_this(l) and r.get('kind') == 'DeclRefExpr' and r.get('referencedDecl', {}).get('kind') == 'ParmVarDecl':
+            return 'setter'
+    return ''
 
 
 class Walker:
     def __init__(self):
         self.cur_file = ''
         self.out = {}
+        self.ids = {}
+        self.noninline = {}
 
     def files(self, obj):
         """clang prints `file` only when it changes: resolve the file of every node in document order"""
@@ -106,7 +167,7 @@ class Walker:
         name = strip_targs(node.get('name', ''))
         if not name:
             return
-        ps, pack = _params(node)
+        ps, pack, cats = _params(node)
         qt = node.get('type', {}).get('qualType', '')
         tail = qt[qt.rfind(')') + 1:] if ')' in qt else ''
         const = bool(re.search(r'\bconst\b', tail))
@@ -115,11 +176,15 @@ class Walker:
         sig = q + '(' + ', '.join(ps) + ')' + (' const' if const else '')
         key = mn or ('T:' + sig)
         has_body = any(ch.get('kind') in ('CompoundStmt', 'CXXTryStmt') for ch in node.get('inner', []))
-        rec = self.out.setdefault(key, {'q': q, 'sig': sig, 'n': len(ps), 'const': const, 'pack': pack, 'mangled': mn, 'templated': bool(templated),
+        rec = self.out.setdefault(key, {'q': q, 'sig': sig, 'n': len(ps), 'const': const, 'pack': pack, 'cats': cats, 'mangled': mn, 'templated': bool(templated),
                                         'file': os.path.relpath(f, INC), 'line': node.get('loc', {}).get('line') or node.get('loc', {}).get('expansionLoc', {}).get('line'),
-                                        'cls': '::'.join(scope), 'body': False, 'virtual': bool(node.get('virtual')),
+                                        'cls': '::'.join(scope), 'body': False, 'trivial': '', 'virtual': bool(node.get('virtual')),
                                         'kind': node.get('kind')})
         rec['body'] = rec['body'] or has_body
+        if has_body:
+            rec['trivial'] = body_kind(node)
+        if node.get('id'):
+            self.ids[node['id']] = key
 
     def record(self, node, scope, templated, public):
         """children of a class definition, with access tracking"""
@@ -188,11 +253,24 @@ class Walker:
             if not isinstance(ch, dict):
                 continue
             k = ch.get('kind')
+            if k in FN_KINDS and ch.get('mangledName') and not ch.get('inline') and not ch.get('constexpr') and ch.get('storageClass') != 'static' \
+                    and any(x.get('kind') == 'CompoundStmt' for x in ch.get('inner', []) or []) and ch.get('_file', '').startswith(os.path.join(INC, 'AIToolbox')):
+                # a non-template, non-inline function DEFINED at namespace scope of a header (free function, out-of-line member,
+                # explicit specialisation of a member): every TU that includes the header emits a strong definition
+                self.noninline[ch['mangledName']] = '%s:%s' % (os.path.relpath(ch['_file'], INC), ch.get('loc', {}).get('line', '?'))
             if k == 'NamespaceDecl':
                 self.namespace(ch, sc)
                 self.ns_depth = len(sc)
             elif 'parentDeclContextId' in ch:
-                continue           # out-of-line definition of a member: declared (with its access) inside the class
+                # out-of-line definition of a member: declared (with its access) inside the class; only its body is of interest
+                g = ch
+                if k == 'FunctionTemplateDecl':
+                    g = next((x for x in ch.get('inner', []) or [] if x.get('kind') in FN_KINDS), {})
+                key = self.ids.get(g.get('previousDecl'))
+                if key and any(x.get('kind') == 'CompoundStmt' for x in g.get('inner', []) or []):
+                    self.out[key]['body'] = True
+                    self.out[key]['trivial'] = body_kind(g)
+                continue
             elif k == 'ClassTemplateSpecializationDecl':
                 # explicit specialisation written in the header (implicit instantiations hang below their ClassTemplateDecl):
                 # a plain class whose members carry mangled names
@@ -233,10 +311,11 @@ def dump_header(rel):
         # specialisations of std:: templates, which are not API)
         if obj.get('kind') == 'NamespaceDecl' and obj.get('name') == 'AIToolbox':
             w.namespace(obj, [])
-    res = {'rc': p.returncode, 'docs': ndocs, 'decls': w.out}
-    tmp = cache + '.tmp%d' % os.getpid()
-    json.dump(res, open(tmp, 'w'))
-    os.replace(tmp, cache)
+    res = {'rc': p.returncode, 'docs': ndocs, 'decls': w.out, 'noninline': w.noninline}
+    if ndocs:                 # an empty dump is a transient failure (clang killed ...): do not remember it
+        tmp = cache + '.tmp%d' % os.getpid()
+        json.dump(res, open(tmp, 'w'))
+        os.replace(tmp, cache)
     return res
 
 
@@ -260,14 +339,40 @@ def public_api():
             if f.endswith('.hpp'):
                 headers.append(os.path.relpath(os.path.join(dp, f), INC))
     decls, bad = {}, []
+    public_api.noninline = {}
     with ThreadPoolExecutor(max_workers=C.NPROC) as ex:
         for rel, res in zip(headers, ex.map(_dump_header_subprocess, headers)):
-            if res['rc'] != 0 or not res['docs']:
-                bad.append(rel)
+            public_api.noninline.update(res.get('noninline', {}))
+            if not res['docs']:
+                bad.append(rel)       # (rc != 0 alone is not fatal: clang-14 lacks P0960 and rejects some emplace_back calls
+                                      #  inside function bodies of the POMDP headers; the declarations are still dumped)
             for k, rec in res['decls'].items():
                 r = decls.setdefault(k, rec)
                 r['body'] = r['body'] or rec['body']
+                r['trivial'] = r.get('trivial') or rec.get('trivial', '')
+    _src_trivial(decls)
     return decls, headers, bad
+
+
+_GET = re.compile(r'\b(\w+)::(\w+)\s*\(\s*\)\s*const\s*(?:noexcept\s*)?\{\s*return\s+([A-Za-z_]\w*)\s*;\s*\}')
+_SET = re.compile(r'\b(\w+)::(\w+)\s*\(\s*(?:const\s+)?[\w:<>]+(?:\s*&)?\s+(\w+)\s*\)\s*\{\s*([A-Za-z_]\w*)\s*=\s*(\w+)\s*;\s*\}')
+
+
+def _src_trivial(decls):
+    """members defined in src/*.cpp: `T C::f() const { return m_; }` is a getter, `void C::f(T x) { m_ = x; }` a setter (textual)"""
+    got = {}
+    for f in C.repo_sources():
+        txt = re.sub(r'//[^\n]*', '', open(f, errors='replace').read())
+        for m in _GET.finditer(txt):
+            got[(m.group(1), m.group(2), 0)] = 'getter'
+        for m in _SET.finditer(txt):
+            if m.group(3) == m.group(5):
+                got[(m.group(1), m.group(2), 1)] = 'setter'
+    for rec in decls.values():
+        if not rec.get('trivial') and not rec['body']:
+            parts = rec['q'].split('::')
+            if len(parts) >= 2:
+                rec['trivial'] = got.get((strip_targs(parts[-2]), parts[-1], rec['n']), '')
 
 
 # ------------------------------------------------------------------------------------------------ harness objects
@@ -287,6 +392,7 @@ def harness_specs():
 
 
 _IH = None
+_LOCKS, _LOCKS_GUARD = {}, threading.Lock()
 
 
 def _ih():
@@ -306,15 +412,22 @@ def harness_syms(rel, flags=()):
     src = os.path.join(C.VERIF, rel)
     key = C.sha(SYMS_VERSION, _ih(), ' '.join(flags), C.file_bytes(src), *_common_bytes())
     cache = os.path.join(WORK, key + '.syms')
+    with _LOCKS_GUARD:
+        lock = _LOCKS.setdefault(key, threading.Lock())
+    with lock:          # a compile probe is also a harness/c*.cpp of its own: compile it once
+        return _harness_syms(src, flags, key, cache)
+
+
+def _harness_syms(src, flags, key, cache):
     if os.path.exists(cache):
         txt = open(cache).read()
         if txt.startswith('#FAILED'):
             return None, txt
         return [tuple(l.split(' ', 1)) for l in txt.split('\n') if l], ''
-    obj = os.path.join(WORK, key + '.%d.o' % os.getpid())
+    obj = os.path.join(WORK, key + '.%d.%d.o' % (os.getpid(), threading.get_ident()))
     cmd = [C.CXX, '-std=c++20', '-O0', '-c', '-w', '-D' + C.GUARD, '-I' + INC, '-I/usr/include/eigen3', '-I' + os.path.join(C.VERIF, 'harness')] + list(flags) + [src, '-o', obj]
     rc, out = C.sh(cmd, timeout=1500)
-    tmp = cache + '.tmp%d' % os.getpid()
+    tmp = cache + '.tmp%d.%d' % (os.getpid(), threading.get_ident())
     if rc != 0:
         if os.path.exists(obj):
             os.remove(obj)
@@ -322,12 +435,23 @@ def harness_syms(rel, flags=()):
         open(tmp, 'w').write(txt); os.replace(tmp, cache)
         return None, txt
     rc, out = C.sh(['nm', obj], timeout=300)
-    os.remove(obj)
     syms = []
     for ln in out.split('\n'):
         parts = ln.split()
         if len(parts) >= 2 and len(parts[-2]) == 1 and 'AIToolbox' in parts[-1]:
             syms.append((parts[-2], parts[-1]))
+    # a strong definition (T) comes from a NON-inline function defined in a header: g++ emits it for the mere #include; it is
+    # referenced only when some relocation names it (pseudo type R)
+    strong = {s for t, s in syms if t == 'T'}
+    if strong:
+        rc, out = C.sh(['readelf', '-rW', obj], timeout=300)
+        rel = set()
+        for ln in out.split('\n'):
+            parts = ln.split()
+            if len(parts) >= 5 and parts[4] in strong:
+                rel.add(parts[4])
+        syms += [('R', x) for x in sorted(rel)]
+    os.remove(obj)
     open(tmp, 'w').write('\n'.join(t + ' ' + s for t, s in syms)); os.replace(tmp, cache)
     return syms, ''
 
@@ -424,8 +548,8 @@ def _finish(prefix, params, tail):
     name = p[cut + 1:]
     if 'AIToolbox' not in name:
         return None
-    n = 0 if params in ('', 'void') else len(split_top(params))
-    return name, n, bool(re.search(r'\bconst\b', tail))
+    pl = [] if params in ('', 'void') else split_top(params)
+    return name, len(pl), bool(re.search(r'\bconst\b', tail)), tuple(type_cat(x) for x in pl)
 
 
 def demangle(names):
@@ -434,6 +558,11 @@ def demangle(names):
     p = subprocess.run(['c++filt'], input='\n'.join(names) + '\n', stdout=subprocess.PIPE, text=True)
     out = p.stdout.split('\n')
     return dict(zip(names, out))
+
+
+def parsed_name(d):
+    r = parse_demangled(d) if d else None
+    return r[0] if r else None
 
 
 def parse_symbol(d):
@@ -461,7 +590,11 @@ def coverage(use_cache=True):
     allsyms = sorted({s for v in syms.values() for _, s in v})
     dem = demangle(allsyms)
     by_mangled, by_name = {}, {}
-    for h, v in syms.items():
+    strong_defs = set()
+    for h, v in list(syms.items()):
+        rel = {s for t, s in v if t == 'R'}
+        strong_defs |= {dem.get(s, s) for t, s in v if t == 'T' and (parsed_name(dem.get(s, '')) or '').startswith('AIToolbox::')}
+        syms[h] = v = [(t, s) for t, s in v if t != 'R' and (t != 'T' or s in rel)]
         for t, s in v:
             by_mangled.setdefault(norm_mangled(s), set()).add(h)
     parsed = {}
@@ -473,41 +606,65 @@ def coverage(use_cache=True):
         for t, s in v:
             r = parsed.get(s)
             if r:
-                by_name.setdefault(r[0], {}).setdefault((r[1], r[2]), set()).add(h)
+                by_name.setdefault(r[0], {}).setdefault((r[1], r[2]), {}).setdefault(r[3], set()).add(h)
+    # templated declarations: (qualified name, arity, const); overloads that this key cannot tell apart are separated by the
+    # coarse parameter categories when a symbol positively identifies one of them, else every overload of the group is marked
+    tdecls, thits = {}, {}
+    for k, rec in decls.items():
+        if not rec['mangled']:
+            tdecls.setdefault(rec['q'], []).append(k)
+    for q, d in by_name.items():
+        for (n, const), bycat in d.items():
+            group = [k for k in tdecls.get(q, []) if (const == decls[k]['const'] or decls[k]['kind'] == 'CXXConstructorDecl')
+                     and (n == decls[k]['n'] or (decls[k]['pack'] and n >= decls[k]['n'] - 1))]
+            for cats, hh in bycat.items():
+                exact = [k for k in group if not decls[k]['pack'] and tuple(decls[k].get('cats', ())) == cats]
+                for k in (exact if exact and len(group) > 1 else group):
+                    thits.setdefault(k, set()).update(hh)
     covered, uncovered, by_harness = {}, [], {}
     for k, rec in decls.items():
-        hs = set()
-        if rec['mangled']:
-            hs = by_mangled.get(norm_mangled(rec['mangled']), set())
-        else:
-            cands = by_name.get(rec['q'], {})
-            for (n, const), hh in cands.items():
-                if const != rec['const'] and rec['kind'] != 'CXXConstructorDecl':
-                    continue
-                if n == rec['n'] or (rec['pack'] and n >= rec['n'] - 1):
-                    hs = hs | hh
+        hs = by_mangled.get(norm_mangled(rec['mangled']), set()) if rec['mangled'] else thits.get(k, set())
         if hs:
             covered[k] = sorted(hs)
             for h in hs:
                 by_harness[h] = by_harness.get(h, 0) + 1
         else:
             uncovered.append(k)
+    # hint for triage: harnesses whose TEXT mentions `name(` although no object references the function (virtual call through
+    # a reference, constant evaluation, a different overload, a same-named member of another class ...)
+    texts = {os.path.basename(p)[:-4]: re.sub(r'//[^\n]*', '', open(p, errors='replace').read()) for p in files}
+    hint_cache = {}
+
+    def hint(q):
+        name = q.rsplit('::', 1)[-1]
+        if name not in hint_cache:
+            if name.startswith('operator'):
+                hint_cache[name] = []
+            else:
+                cls = q.rsplit('::', 2)[-2] if q.count('::') >= 2 else ''
+                pat = re.compile(r'\b' + re.escape(name) + r'\s*[(<{]')
+                hint_cache[name] = sorted(h for h, t in texts.items() if pat.search(t))
+        return hint_cache[name]
     # overloads of templated functions that the (name, arity, const) key cannot tell apart
     groups = {}
     for k, rec in decls.items():
         if not rec['mangled']:
-            groups.setdefault((rec['q'], rec['n'], rec['const']), []).append(rec['sig'])
+            groups.setdefault((rec['q'], rec['n'], rec['const'], tuple(rec.get('cats', ()))), []).append(rec['sig'])
     ambiguous = sorted(s for g in groups.values() if len(g) > 1 for s in g)
     res = {'public': len(decls), 'covered': len(covered), 'uncovered': sorted(decls[k]['sig'] for k in uncovered),
            'uncovered_detail': sorted(({'sig': decls[k]['sig'], 'q': decls[k]['q'], 'file': decls[k]['file'], 'line': decls[k]['line'], 'cls': decls[k]['cls'],
-                                        'templated': decls[k]['templated'], 'virtual': decls[k]['virtual'], 'body': decls[k]['body']} for k in uncovered),
+                                        'templated': decls[k]['templated'], 'virtual': decls[k]['virtual'], 'body': decls[k]['body'],
+                                        'kind': decls[k]['kind'], 'trivial': decls[k].get('trivial', ''), 'text_hint': hint(decls[k]['q'])} for k in uncovered),
                                       key=lambda r: (r['file'], r['cls'], r['line'] or 0, r['sig'])),
            'covered_detail': {decls[k]['sig']: v for k, v in sorted(covered.items(), key=lambda kv: decls[kv[0]]['sig'])},
            'by_harness': by_harness, 'harness_failed': failed, 'headers': len(headers), 'headers_failed': bad,
-           'ambiguous_template_overloads': ambiguous, 'seconds': round(time.time() - t0, 1)}
-    tmp = cache + '.tmp%d' % os.getpid()
-    json.dump(res, open(tmp, 'w'))
-    os.replace(tmp, cache)
+           'ambiguous_template_overloads': ambiguous, 'strong_definitions_from_headers': sorted(strong_defs),
+           'noninline_header_definitions': sorted('%s  [%s]' % (d, w) for d, w in zip(demangle(sorted(public_api.noninline)).values(),
+                                                                                      [public_api.noninline[m] for m in sorted(public_api.noninline)])), 'seconds': round(time.time() - t0, 1)}
+    if not bad:               # a header without any declaration dump makes the result incomplete: recompute next time
+        tmp = cache + '.tmp%d' % os.getpid()
+        json.dump(res, open(tmp, 'w'))
+        os.replace(tmp, cache)
     return res
 
 
@@ -520,8 +677,9 @@ def accounted_for(res):
     acc, un = {}, []
     for r in res['uncovered_detail']:
         hit = None
+        tags = {'@trivial-' + r['trivial']} if r.get('trivial') else set()
         for pat, why in ACCOUNTED.items():
-            if fnmatch.fnmatchcase(r['sig'], pat) or fnmatch.fnmatchcase(r['q'], pat):
+            if pat in tags or (not pat.startswith('@') and (fnmatch.fnmatchcase(r['sig'], pat) or fnmatch.fnmatchcase(r['q'], pat))):
                 hit = (pat, why); break
         if hit:
             acc[r['sig']] = hit
@@ -539,10 +697,13 @@ def _print_grouped(rows):
             print('  %s  [%s]' % (r['cls'], r['file']))
             last = g
         short = r['sig'][len(r['cls']) + 2:] if r['sig'].startswith(r['cls'] + '::') else r['sig']
-        print('      %s%s   :%s' % (short, ('  {template}' if r['templated'] else '') + ('  {virtual}' if r['virtual'] else ''), r['line']))
+        print('      %s%s   :%s%s' % (short, ('  {template}' if r['templated'] else '') + ('  {virtual}' if r['virtual'] else ''), r['line'],
+                                     ('   ~name in ' + (','.join(r['text_hint']) if len(r['text_hint']) <= 6 else 'many')) if r.get('text_hint') else ''))
 
 
 if __name__ == '__main__':
+    import signal
+    signal.signal(signal.SIGPIPE, signal.SIG_DFL)
     if len(sys.argv) >= 3 and sys.argv[1] == '--dump-header':
         os.makedirs(WORK, exist_ok=True)
         dump_header(sys.argv[2])
@@ -557,6 +718,12 @@ if __name__ == '__main__':
           % (res['public'], res['headers'], res['covered'], len(res['uncovered']), len(acc), len(un), time.time() - t0, res['seconds']))
     for h, log in res['harness_failed'].items():
         print('HARNESS DOES NOT COMPILE (ignored): %s  %s' % (h, log.replace('\n', ' | ')[:300]))
+    if res.get('noninline_header_definitions') or res.get('strong_definitions_from_headers'):
+        print('NOTE non-inline functions DEFINED in a header (every including TU emits a strong symbol: a program with two such TUs does not link):')
+        for d in res.get('noninline_header_definitions', []):
+            print('     AST:', d)
+        for d in res['strong_definitions_from_headers']:
+            print('     T symbol in a harness object:', d)
     if res['headers_failed']:
         print('HEADERS WITH CLANG ERRORS (declarations may be missing):', ' '.join(res['headers_failed']))
     print('functions referenced, per harness:', ' '.join('%s:%d' % (os.path.basename(h), n) for h, n in sorted(res['by_harness'].items())))
@@ -568,7 +735,7 @@ if __name__ == '__main__':
         print('ACCOUNTED (uncovered, explained by tools/props/c10_api_accounted.py):')
         for s, (pat, why) in sorted(acc.items()):
             print('   %s   <- %s: %s' % (s, pat, why))
-        print('template overloads not told apart by (name, arity, const) - covered if any of the group is:')
+        print('template overloads not told apart by (name, arity, const, coarse parameter kinds) - covered if any of the group is:')
         for s in res['ambiguous_template_overloads']:
             print('  ', s)
     if unused:
